@@ -11,16 +11,6 @@ Import ListNotations.
 Local Open Scope Z_scope.
 
 (* ---------------------------------------------------------------- the fragment *)
-(* a bound survives int64 -> format -> int64 *)
-Definition in_range64 (k : ikind) (z : Z) : bool :=
-  match k with
-  | I64 => (- 2 ^ 63 <=? z) && (z <? 2 ^ 63)
-  | U64 => (0 <=? z) && (z <? 2 ^ 63)
-  | k => in_range k z
-  end.
-Definition opt_range64 (k : ikind) (o : option Z) : bool :=
-  match o with Some z => in_range64 k z | None => true end.
-
 Definition pat_plain (p : option str) : bool :=
   match p with
   | Some p => negb (str_eqb p date_pattern) && negb (str_eqb p number_pattern)
@@ -37,7 +27,6 @@ Definition rt_fty (m : mode) (t : fty) : bool :=
   | MMap, TFloat _ None | MMap, TDate None None | MMap, TDecimal None None | MMap, TTimestamp None
   | MMap, TObject false => true
   | MMap, _ => false
-  | _, TInt k (Some r) _ => opt_range64 k (ir_min r) && opt_range64 k (ir_max r)
   | _, TStr (Some r) _ => pat_plain (sr_pat r)
   | _, TKey None e l =>
       (* without a format the key is recognised by its annotations only *)
@@ -60,41 +49,32 @@ Definition rt_ok (d : prop) : bool :=
 Definition vt_of (v : option constraint) : option tyc :=
   match v with Some c => c_ty c | None => None end.
 
-Lemma to_i64_id k z : in_range64 k z = true -> to_i64 k (cast k z) = z /\ cast k z = z.
+(* a bound the compiler accepts survives int64 -> format -> int64 *)
+Lemma to_i64_id k z : bound_ok k z = true -> to_i64 k (cast k z) = z.
 Proof.
-  intro H. destruct k; cbn [in_range64] in H.
-  - rewrite (cast_id I32 z H). split; reflexivity.
-  - split; reflexivity.
-  - rewrite (cast_id U32 z H). split; reflexivity.
-  - apply andb_true_iff in H as [H1 H2]. apply Z.leb_le in H1. apply Z.ltb_lt in H2.
-    assert (Hc : cast U64 z = z).
-    { cbn [cast]. apply Z.mod_small. change (2 ^ 64) with 18446744073709551616.
-      change (2 ^ 63) with 9223372036854775808 in H2. lia. }
-    rewrite Hc. split; [|reflexivity].
-    cbn [to_i64]. unfold wrap_signed.
-    change (2 ^ 64) with 18446744073709551616. change (2 ^ (64 - 1)) with 9223372036854775808.
-    change (2 ^ 63) with 9223372036854775808 in H2.
-    rewrite Z.mod_small by lia. destruct (Z.ltb_spec z 9223372036854775808); lia.
+  intro H. rewrite (cast_id k z H). destruct k; try reflexivity.
+  cbn [bound_ok] in H. apply andb_true_iff in H as [H1 H2]. apply Z.leb_le in H1. apply Z.ltb_lt in H2.
+  cbn [to_i64]. unfold wrap_signed.
+  change (2 ^ 64) with 18446744073709551616. change (2 ^ (64 - 1)) with 9223372036854775808.
+  change (2 ^ 63) with 9223372036854775808 in H2.
+  rewrite Z.mod_small by lia. destruct (Z.ltb_spec z 9223372036854775808); lia.
 Qed.
 
 Lemma ikind_eqb_refl k : ikind_eqb k k = true.
 Proof. destruct k; reflexivity. Qed.
 
 Lemma read_write_int k r c :
-  opt_range64 k (ir_min r) = true -> opt_range64 k (ir_max r) = true ->
   write_int_rules k r = Ok c ->
   read_int_rules k (Some c) = Some (norm_int r).
 Proof.
-  intros Hmn Hmx Hw. unfold write_int_rules in Hw.
+  intro Hw. apply write_int_ok in Hw as [Hadm Hc]. subst c.
   destruct r as [mn mx xmn xmx]. cbn [ir_min ir_max ir_xmin ir_xmax] in *.
-  assert (Hc : c = CInt k
-            (match mx with None => NoUb | Some m => if is_true xmx then Lt (cast k m) else Lte (cast k m) end)
-            (match mn with None => NoLb | Some m => if is_true xmn then Gt (cast k m) else Gte (cast k m) end)).
-  { destruct xmn as [[|]|], mn, xmx as [[|]|], mx; cbn in Hw |- *; try discriminate; inversion Hw; reflexivity. }
-  subst c. clear Hw. cbn [read_int_rules]. rewrite ikind_eqb_refl.
+  unfold int_adm in Hadm. cbn [ir_min ir_max] in Hadm.
+  apply andb_true_iff in Hadm as [Hadm _]. apply andb_true_iff in Hadm as [Hmn Hmx].
+  cbn [read_int_rules]. rewrite ikind_eqb_refl.
   unfold norm_int. cbn [ir_min ir_max ir_xmin ir_xmax].
-  destruct mn as [a|], mx as [b|]; cbn [opt_range64 is_some andb] in *;
-    try (destruct (to_i64_id k a Hmn) as [Ha1 Ha2]); try (destruct (to_i64_id k b Hmx) as [Hb1 Hb2]);
+  destruct mn as [a|], mx as [b|]; cbn [opt_bound_ok is_some andb] in *;
+    try (pose proof (to_i64_id k a Hmn) as Ha1); try (pose proof (to_i64_id k b Hmx) as Hb1);
     destruct (is_true xmn), (is_true xmx); cbn [andb]; rewrite ?Ha1, ?Hb1; reflexivity.
 Qed.
 
@@ -167,8 +147,7 @@ Proof.
                  = match r with Some r => Some (norm_int r) | None => None end).
     { destruct r as [r|].
       - apply obind_ok in Hv as [c [Hc Hv]]. inversion Hv; subst vo.
-        destruct m; try discriminate; cbn [rt_fty] in Hrt;
-          apply andb_true_iff in Hrt as [H1 H2];
+        destruct m; try discriminate;
           cbn [vt_seen vt_of fw_val only_ty c_ty]; apply read_write_int; assumption.
       - inversion Hv; subst. destruct m; reflexivity. }
     destruct k; cbn [int_pkind read_field norm_fty int_larm] in *; rewrite Hr;
